@@ -263,6 +263,44 @@ func runVector(v M) (out M) {
 			got[name] = r
 		}
 		out["got"] = got
+	case "v2seq":
+		// one wrapper value with one keyed integrity hash serialises and decodes a sequence of packets
+		l := &ipmi.V2Session{IntegrityAlgorithm: integHash(v["alg"].(string), ints(v["key"]))}
+		steps := v["steps"].([]any)
+		got := make([]any, 0, len(steps))
+		slim := make([]any, 0, len(steps))
+		for _, st := range steps {
+			s := m(st)
+			exp := m(s["exp"])
+			if t, ok := exp["bytesT"]; ok {
+				exp = M{"err": exp["err"], "bytes": anyInts(ev.eval(m(t)))}
+			}
+			slim = append(slim, M{"op": s["op"], "exp": exp})
+			func() {
+				var r M
+				defer func() {
+					if p := recover(); p != nil {
+						r = M{"panic": fmt.Sprint(p)}
+					}
+					got = append(got, r)
+				}()
+				if s["op"] == "decode" {
+					r = decodeInto(l, exact(ev.eval(m(s["bytesT"]))))
+					return
+				}
+				if err := populate(reflect.ValueOf(l).Elem(), s["fields"]); err != nil {
+					panic("harness: " + err.Error())
+				}
+				buf := gopacket.NewSerializeBuffer()
+				err := gopacket.SerializeLayers(buf, gopacket.SerializeOptions{FixLengths: true, ComputeChecksums: true}, l, gopacket.Payload(ints(s["payload"])))
+				r = M{"err": err != nil}
+				if err == nil {
+					r["bytes"] = toInts(buf.Bytes())
+				}
+			}()
+		}
+		out["steps"] = slim
+		out["got"] = got
 	case "aesseq":
 		// one AES-128-CBC layer value decodes each packet in turn (the specification's encryption of each payload)
 		var k [16]byte
